@@ -78,6 +78,7 @@ pub fn mk_cfg(it: &DecPlanItem, or: &Oracles, tag_chunk: &'static str, tag_singl
         tag_single,
         few_caps: it.few_caps,
         mixed: it.mixed,
+        mixed_sink: it.mixed && matches!(it.sink, Sink::Utf8 | Sink::Utf16),
     }
 }
 
@@ -117,6 +118,8 @@ fn full_item(enc: &'static str, sink: Sink, repl: bool, k: usize) -> DecPlanItem
     DecPlanItem { enc, sink, repl, bom: BomMode::Off, k, words: false, runs: vec![], full: true, few_caps: true, mixed: false }
 }
 
+/// decoders that carry output or method-dependent state from one call to the next
+const MIXED_QUICK: [&str; 7] = ["UTF-16LE", "UTF-16BE", "gb18030", "ISO-2022-JP", "EUC-JP", "UTF-8", "Big5"];
 const ALL_SINKS: [Sink; 4] = [Sink::Utf8, Sink::Utf16, Sink::Str, Sink::String];
 const SLICE_SINKS: [Sink; 2] = [Sink::Utf8, Sink::Utf16];
 const ALL_BOMS: [BomMode; 3] = [BomMode::Off, BomMode::Sniff, BomMode::Remove];
@@ -153,12 +156,15 @@ pub fn dec_plan(prop: &str, tier: Tier) -> Vec<DecPlanItem> {
                     }
                 }
                 v.push(item(e, Sink::Utf8, false, BomMode::Sniff, 2, &[16]));
+                if q && MIXED_QUICK.contains(&e) {
+                    let mut it = item(e, Sink::Utf8, false, BomMode::Off, 2, &[]);
+                    it.mixed = true;
+                    v.push(it);
+                }
                 if !q {
-                    for s in SLICE_SINKS {
-                        let mut it = item(e, s, false, BomMode::Off, 2, &[]);
-                        it.mixed = true;
-                        v.push(it);
-                    }
+                    let mut it = item(e, Sink::Utf8, false, BomMode::Off, 2, &[]);
+                    it.mixed = true;
+                    v.push(it);
                     v.push(item(e, Sink::Utf16, true, BomMode::Sniff, 2, &[16]));
                     v.push(item(e, Sink::Utf8, true, BomMode::Remove, 2, &[16]));
                 }
@@ -205,6 +211,11 @@ pub fn dec_plan(prop: &str, tier: Tier) -> Vec<DecPlanItem> {
                 v.push(item(e, Sink::Str, true, BomMode::Off, if q { 1 } else { 2 }, &[16]));
                 v.push(item(e, Sink::String, false, BomMode::Off, if q { 1 } else { 2 }, &[16]));
                 v.push(item(e, Sink::Utf8, true, BomMode::Sniff, 2, &[]));
+                if !q || MIXED_QUICK.contains(&e) {
+                    let mut it = item(e, Sink::Utf16, false, BomMode::Off, 2, &[]);
+                    it.mixed = true;
+                    v.push(it);
+                }
                 if !q {
                     v.push(item(e, Sink::Utf8, true, BomMode::Off, 2, runs_t));
                     v.push(item(e, Sink::Utf16, false, BomMode::Off, 2, runs_t));
@@ -226,11 +237,15 @@ pub fn dec_plan(prop: &str, tier: Tier) -> Vec<DecPlanItem> {
                     v.push(item(e, Sink::Utf16, false, b, k_of(e), &[16]));
                 }
                 // mixed-method runs: the query of one method family in a state reached through the other
-                for s in SLICE_SINKS {
-                    let mut it = item(e, s, false, BomMode::Off, 2, &[]);
+                {
+                    let mut it = item(e, Sink::Utf8, false, BomMode::Off, 2, &[]);
                     it.mixed = true;
                     v.push(it);
                 }
+                // ... and with a withheld BOM prefix replayed by one method and queried for another
+                let mut it = item(e, Sink::Utf16, false, BomMode::Sniff, 2, &[]);
+                it.mixed = true;
+                v.push(it);
             }
         }
         "C08" => {
@@ -242,6 +257,12 @@ pub fn dec_plan(prop: &str, tier: Tier) -> Vec<DecPlanItem> {
                 }
                 v.push(item(e, Sink::Utf8, true, BomMode::Sniff, 2, &[]));
                 v.push(item(e, Sink::Utf16, false, BomMode::Sniff, 2, &[]));
+                // what one method leaves pending must not stall another method's minimum buffer
+                if !q || MIXED_QUICK.contains(&e) {
+                    let mut it = item(e, Sink::Utf8, false, BomMode::Off, 2, &[]);
+                    it.mixed = true;
+                    v.push(it);
+                }
             }
         }
         "C09" => {
